@@ -383,7 +383,19 @@ def wiring(ctx: Any) -> List[Ob]:
     w = cfg2.must_pass_before_exit(cfg2.entry, lambda n: any(call_name(c) == '_cancel_any_timers_for_addr' for c in n.calls()))
     obs.append(ob(R, rq, 'packets = self._deferred.pop(addr, [])', 'answering consumes the deferred packets of that source and cancels its timer, so the union is answered exactly once', len(pops) == 1 and norm(pops[0].args[0]) == rq.params[2] and w is None))
     ct = prog.func(LS + '._cancel_any_timers_for_addr')
-    okc = any(isinstance(c, ast.Call) and call_name(c) == 'cancel' and isinstance(c.func.value, ast.Call) and call_name(c.func.value) == 'pop' for c in walk_local_ordered(ct.node))
+
+    cme = ct.params[0]
+
+    def _is_handle(e: ast.AST) -> bool:
+        e = expand(ct, e)
+        if isinstance(e, ast.Call) and call_name(e) == 'pop' and isinstance(e.func, ast.Attribute) and self_attr(e.func.value, cme) == '_timers':
+            return True
+        return isinstance(e, ast.Subscript) and self_attr(e.value, cme) == '_timers'
+
+    cancels = [c for c in walk_local_ordered(ct.node) if isinstance(c, ast.Call) and call_name(c) == 'cancel' and isinstance(c.func, ast.Attribute) and _is_handle(c.func.value)]
+    removed = any(isinstance(c, ast.Call) and call_name(c) == 'pop' and isinstance(c.func, ast.Attribute) and self_attr(c.func.value, cme) == '_timers' for c in walk_local_ordered(ct.node)) or any(
+        isinstance(d, ast.Delete) and any(isinstance(t, ast.Subscript) and self_attr(t.value, cme) == '_timers' for t in d.targets) for d in walk_local_ordered(ct.node))
+    okc = bool(cancels) and removed
     obs.append(ob(R, ct, 'self._timers.pop(addr).cancel()', 'cancelling removes the handle and cancels it', okc))
     return obs
 
